@@ -1504,7 +1504,7 @@ func rejectAltsPerEdge(p *Prog, fn *ssa.Function) []FactSet {
 // comparison on its length; otherwise a blob shorter than that panics the scan goroutine — on
 // every restart again, at the same DA height.
 func ruleBlobBytesBoundsChecked(c *Check, p *Prog, rule string) {
-	c.Doc(rule, "GA: in the DA scan (RetrieveLoop and what it calls in the repository, 6 deep) every slicing or indexing of a blob's raw bytes is dominated by a relational test on that blob's length; slicing by proto.Unmarshal and the decoders of the wire types is theirs (C12-R4).")
+	c.Doc(rule, "GA: in the DA scan (RetrieveLoop and what it calls in the repository, 6 deep) every slicing, indexing or slice-to-array conversion of a blob's raw bytes, or of a byte field of a header / data item decoded from it (an address, a hash, a signature: as long as the third party made it), is dominated by a relational test on that value's length; slicing by proto.Unmarshal and the decoders of the wire types is theirs (C12-R4).")
 	rl := p.MustFunc(mgrM("RetrieveLoop"))
 	g := BuildECFG(p, rl, ExpandOpts{MaxDepth: 6})
 	c.NoteGraph(g)
@@ -1536,6 +1536,8 @@ func ruleBlobBytesBoundsChecked(c *Check, p *Prog, rule string) {
 			x, what = in.X, "indexed"
 		case *ssa.Index:
 			x, what = in.X, "indexed"
+		case *ssa.SliceToArrayPointer:
+			x, what = in.X, "converted to an array"
 		}
 		if x == nil {
 			continue
@@ -1549,8 +1551,26 @@ func ruleBlobBytesBoundsChecked(c *Check, p *Prog, rule string) {
 		if os.Getenv("VERIF_DEBUG_C09") != "" {
 			fmt.Fprintf(os.Stderr, "DBG blob? %s %s\n", p.InstrPos(nd.In), trunc(base.String(), 200))
 		}
-		if !isBlob(base) {
+		// besides the raw blob: the byte fields of an item decoded from it (an address, a hash, a
+		// signature, a transaction) are as long as the third party made them
+		decodedField := false
+		if bu := base.unconv(); !isBlob(base) && bu.Op == "field" && len(bu.Args) > 0 {
+			for r := bu; r != nil && !decodedField; {
+				if r.V != nil && (strings.Contains(r.V.Type().String(), "types.SignedHeader") || strings.Contains(r.V.Type().String(), "types.SignedData") || strings.Contains(r.V.Type().String(), "types.Data") || strings.Contains(r.V.Type().String(), "types.Header")) {
+					decodedField = true
+				}
+				if (r.Op == "field" || r.Op == "index" || r.Op == "conv" || r.Op == "load") && len(r.Args) > 0 {
+					r = r.Args[0]
+				} else {
+					r = nil
+				}
+			}
+		}
+		if !isBlob(base) && !decodedField {
 			continue
+		}
+		if decodedField {
+			what = "(a byte field of a decoded item: " + trunc(base.String(), 50) + ") " + what
 		}
 		nBlobUses++
 		key := p.InstrPos(nd.In)
